@@ -107,6 +107,7 @@ func authority() {
 		if err != nil {
 			panic(err)
 		}
+		mitmC.SetHandshakeErrorCallback(func(*http.Request, error) { onHandshakeError() })
 		// the TLS origin uses a certificate minted by the same authority for 127.0.0.1
 		oc, err := mitm.NewConfig(ca, priv)
 		if err != nil {
@@ -240,11 +241,18 @@ func (w *world) reqmod() martian.RequestModifier {
 		case "err":
 			return modErr(it.s("ek", "plain"), reqErrMark)
 		case "skip":
-			ctx.SkipRoundTrip()
+			if ctx != nil {
+				ctx.SkipRoundTrip()
+			}
 		case "errskip":
-			ctx.SkipRoundTrip()
+			if ctx != nil {
+				ctx.SkipRoundTrip()
+			}
 			return modErr(it.s("ek", "plain"), reqErrMark)
 		case "hijack":
+			if ctx == nil { // no context for this message: the oracle reports it; nothing to hijack
+				return nil
+			}
 			conn, brw, err := ctx.Session().Hijack()
 			if err == nil {
 				w.mu.Lock()
@@ -275,6 +283,9 @@ func (w *world) resmod() martian.ResponseModifier {
 		}
 		if res.Request != nil {
 			r.resReqWarn = len(res.Request.Header["Warning"])
+			if it != nil {
+				r.resReqWarn = carrying(res.Request.Header["Warning"], modErr(it.s("ek", "plain"), reqErrMark))
+			}
 		}
 		w.mu.Unlock()
 		if it == nil {
@@ -284,6 +295,9 @@ func (w *world) resmod() martian.ResponseModifier {
 		case "err":
 			return modErr(it.s("sek", "plain"), resErrMark)
 		case "hijack":
+			if ctx == nil { // no context for this message: the oracle reports it; nothing to hijack
+				return nil
+			}
 			conn, brw, err := ctx.Session().Hijack()
 			if err == nil {
 				w.mu.Lock()
@@ -379,6 +393,8 @@ func (e *Ex) buildRequest(id string, it *item) []byte {
 			host = "dead.test:1"
 		case "dtimeout":
 			host = "timeout.test:1"
+		case "tlsplain", "tlsbadcert", "tlsclose":
+			host = e.faultAddr // the port the https target names does not hold a (trusted) TLS server
 		}
 	}
 	path := pathOf(id, it)
@@ -394,6 +410,7 @@ func (e *Ex) buildRequest(id string, it *item) []byte {
 		fmt.Fprintf(&b, "%s: %s\r\n", h[0], h[1])
 	}
 	writeConnLines(&b, connLines(it, "ct", "rc"))
+	writeConsulted(&b, it.s("dt", ""), it.s("wp", "0") == "1")
 	body := Body(it.n("rb", 0), it.n("hs", 1))
 	hasBody := method == "POST" || method == "PUT" || method == "PATCH" || method == "DELETE" || it.n("rb", 0) > 0
 	if hasBody {
@@ -441,6 +458,7 @@ func originResponse(id string, it *item) ([]byte, bool) {
 	// the origin hangs up after the response exactly when it said so (version and Connection tokens)
 	closeAfter := askedClose(it.s("opv", "11"), connLines(it, "oct", "oc"))
 	writeConnLines(&b, connLines(it, "oct", "oc"))
+	writeConsulted(&b, it.s("odt", ""), it.s("owp", "0") == "1")
 	body := originBody(it)
 	if bodiless(it.s("m", "GET"), st) {
 		if it.s("m", "GET") == "HEAD" {
@@ -514,6 +532,9 @@ func (e *Ex) originConn(c net.Conn, isTLS bool) {
 		r.upBody = sum(body)
 		r.upWarn = len(req.Header["Warning"])
 		if it != nil {
+			r.upWarn = carrying(req.Header["Warning"], modErr(it.s("ek", "plain"), reqErrMark))
+		}
+		if it != nil {
 			r.upHdrOK, r.upHdrDetail = headersIncluded(reqHeaders(it), req.Header)
 		}
 		if earlyErr != nil {
@@ -531,6 +552,9 @@ func (e *Ex) originConn(c net.Conn, isTLS bool) {
 			continue
 		}
 		full, closeAfter := originResponse(id, it)
+		if ms := it.n("lat", 0); ms > 0 { // a slow origin
+			time.Sleep(time.Duration(ms) * time.Millisecond)
+		}
 		switch it.s("o", "ok") {
 		case "ok":
 			c.Write(full)
@@ -548,6 +572,10 @@ func (e *Ex) originConn(c net.Conn, isTLS bool) {
 				c.Write(full[:k])
 			case "garbage":
 				c.Write([]byte("\x00\x01NOT HTTP AT ALL\r\n\r\n<html>"))
+			case "tlsplain", "tlsbadcert", "tlsclose":
+				// the request got here although the TLS layer toward this port cannot work: answer it, so
+				// that what the client receives shows it too
+				c.Write(full)
 			}
 			return
 		case "trunc":
@@ -600,6 +628,8 @@ type Ex struct {
 	originTLSAddr string
 	sessions      []string
 	shaped        *trafficshape.Listener
+	fl            net.Listener // the port of TLS-layer upstream faults (upfault.go)
+	faultAddr     string
 	ops           []string // the conn / item ops of the case, for a re-confirming second run
 }
 
@@ -613,7 +643,7 @@ func New() *Ex {
 }
 
 func (e *Ex) Close() {
-	for _, l := range []net.Listener{e.pl, e.ol, e.otl, e.dead, e.echo} {
+	for _, l := range []net.Listener{e.pl, e.ol, e.otl, e.dead, e.echo, e.fl} {
 		if l != nil {
 			l.Close()
 		}
@@ -643,6 +673,9 @@ func (e *Ex) Do(op string) core.Result {
 	}
 	toks := strings.Fields(op)
 	if o, ok := doWireOp(toks); ok {
+		return core.Result{Impl: o}
+	}
+	if o, ok := doConsultedOp(toks); ok {
 		return core.Result{Impl: o}
 	}
 	switch toks[0] {
@@ -687,6 +720,9 @@ func (e *Ex) start() {
 	e.originTLSAddr = e.otl.Addr().String()
 	go e.serveOrigin(e.ol, false)
 	go e.serveOrigin(e.otl, true)
+	e.fl = listen()
+	e.faultAddr = e.fl.Addr().String()
+	go e.serveFaults(e.fl)
 	e.echo = listen()
 	go func() {
 		for {
@@ -797,7 +833,12 @@ func (e *Ex) absorb(id string, it *item, res *http.Response, body []byte, berr e
 	r.downID = res.Header.Get(idHeader)
 	// the response modifier's Warning is the one carrying its error text (added last); any other
 	// Warning comes from the round trip / dial failure
-	r.wt = len(res.Header["Warning"])
+	r.wt = 0
+	for _, v := range res.Header["Warning"] {
+		if v != preWarning { // a Warning of somebody else, already on the origin's response
+			r.wt++
+		}
+	}
 	if it.s("rs", "pass") == "err" {
 		want := modErr(it.s("sek", "plain"), resErrMark)
 		for _, v := range res.Header["Warning"] {
@@ -982,6 +1023,16 @@ func (e *Ex) runScenario() core.Result {
 				if it.kind == "cmitm" && e.conn["quiet"] == "1" && idx == len(e.ids)-1 {
 					// the client goes silent after the tunnel is up and hangs up: no byte follows the 200
 					alive = false
+					continue
+				}
+				if it.kind == "cmitm" && it.s("tls", "1") == "1" && it.s("hf", "") != "" {
+					// a handshake that fails without closing TCP: the connection goes on as it was
+					if err := e.failHandshake(cc, idx, it.s("hf", ""), flip); err != nil {
+						w.mu.Lock()
+						w.rec(id).hij = "handshake-failed:" + err.Error()
+						w.mu.Unlock()
+						alive = false
+					}
 					continue
 				}
 				if it.kind == "cmitm" && it.s("tls", "1") == "1" {
